@@ -18,13 +18,13 @@ ELEM_CTOR = {'ELEM_COPY', 'ELEM_MOVE', 'ELEM_DEFAULT', 'ELEM_CONV'}
 ELEM_ASSIGN = {'ELEM_COPY_ASSIGN', 'ELEM_MOVE_ASSIGN', 'ELEM_CONV_ASSIGN'}
 ELEM_ANY = ELEM_CTOR | ELEM_ASSIGN | {'ELEM_SWAP', 'ELEM_CMP', 'ELEM_DTOR'}
 
-_ELEMS = ('NM', 'TM', 'MO', 'MOT', 'CO')
+_ELEMS = ('NM', 'NA', 'TM', 'MO', 'MOT', 'CO')
 
 
 def classify(pretty):
     """Demangled name of a declaration / std function -> primitive kind or None."""
     p = pretty
-    m = re.match(r'^svp::(NM|TM|MO|MOT|CO)::(~?)(\w+)\((.*)\)$', p)
+    m = re.match(r'^svp::(NM|NA|TM|MO|MOT|CO)::(~?)(\w+)\((.*)\)$', p)
     if m:
         cls, tilde, fn, args = m.groups()
         if tilde:
@@ -37,7 +37,7 @@ def classify(pretty):
             if args == 'svp::%s&&' % cls:
                 return 'ELEM_MOVE'
             return 'ELEM_CONV'
-    m = re.match(r'^svp::(NM|TM|MO|MOT|CO)::operator=\((.*)\)$', p)
+    m = re.match(r'^svp::(NM|NA|TM|MO|MOT|CO)::operator=\((.*)\)$', p)
     if m:
         cls, args = m.groups()
         if args == 'svp::%s const&' % cls:
@@ -45,9 +45,9 @@ def classify(pretty):
         if args == 'svp::%s&&' % cls:
             return 'ELEM_MOVE_ASSIGN'
         return 'ELEM_CONV_ASSIGN'
-    if re.match(r'^svp::swap\(svp::(NM|TM|MO|MOT|CO)&, svp::\1&\)$', p):
+    if re.match(r'^svp::swap\(svp::(NM|NA|TM|MO|MOT|CO)&, svp::\1&\)$', p):
         return 'ELEM_SWAP'
-    if re.match(r'^svp::operator(==|<|!=)\(svp::(NM|TM|MO|MOT|CO) const&, svp::\2 const&\)$', p):
+    if re.match(r'^svp::operator(==|<|!=)\(svp::(NM|NA|TM|MO|MOT|CO) const&, svp::\2 const&\)$', p):
         return 'ELEM_CMP'
     # allocator
     m = re.match(r'^svp::PA<.*>::(~?\w+|operator=)\((.*)\)( const)?$', p)
